@@ -300,3 +300,17 @@ Example C01_accepted_by_cell_instance :
   check_C01 (CByCell true [0; 0] [4; 3] [1 # 2; 1] (1 # 1000000000000) (Some [8; 3]%Z)) = true.
 Proof. exact accepted_by_cell_instance. Qed.
 Print Assumptions C01_accepted_by_cell_instance.
+
+(* the region case: observed pmin / pmax are the model's for either corner order; hence the OBSERVED corners are
+   strictly ordered on every axis and have the dimension of the input *)
+Theorem C01_check_region_sound : forall p1 p2 lo hi,
+  check_C01 (CRegion p1 p2 (Some (lo, hi))) = true ->
+  exists r, mk_region p1 p2 None None (1 # 1000000000000) = OK r /\
+    Forall2 Qeq (pmin r) lo /\ Forall2 Qeq (pmax r) hi.
+Proof. exact check_region_sound. Qed.
+Print Assumptions C01_check_region_sound.
+Theorem C01_accepted_region_ordered : forall p1 p2 lo hi,
+  check_C01 (CRegion p1 p2 (Some (lo, hi))) = true -> (length p1 <= 10)%nat ->
+  Forall2 (fun x y => x < y) lo hi /\ length lo = length p1 /\ length hi = length p1.
+Proof. exact accepted_region_ordered. Qed.
+Print Assumptions C01_accepted_region_ordered.
